@@ -1747,18 +1747,7 @@ def compare(code, spec, what="result", hyps=()):
             if isinstance(tc, SumExpr) or isinstance(ts, SumExpr):
                 st, detail, m = sum_equal(tc, ts)
             else:
-                goal = t_eq(tc, ts)
-                natoms = len(sym._cond_atoms(goal)) if is_z3(goal) else 0
-                if natoms >= 6:
-                    st, m = sym.prove_by_cases(goal)          # case analysis on the ite conditions
-                    if st == "unknown":
-                        st, m = sym.refute_or_prove(goal)
-                else:
-                    st, m = sym.refute_or_prove(goal, rlimit=sym.RLIMIT // 20)
-                    if st == "unknown":
-                        st, m = sym.prove_by_cases(goal)
-                        if st == "unknown":
-                            st, m = sym.refute_or_prove(goal)
+                st, m = sym.prove_goal(t_eq(tc, ts))
                 detail = f"code={_short(tc)} spec={_short(ts)}"
             n += 1
             if st != "proved":
